@@ -442,8 +442,7 @@ Print Assumptions c06_pool_next_is_recorded.
    is handed the first change of L = the canonical order of what k holds (a function of the additions to k in [pre]),
    from its start change on; and whatever trace [post] follows — reads of and additions to other trees or k itself,
    other readers opened, stepped and closed — the changes handed to it by its PNext events are, in order, the following
-   elements of L (a prefix of the rest of L: all of it if the reader runs to the end, see the completeness gap in
-   notes/C06.md). *)
+   elements of L (a prefix of the rest of L; all of it if the reader runs to the end: c06_presentation_complete). *)
 Theorem c06_presentation_private : forall G pre r k from post,
   let s := fst (prun false G p_init pre) in
   let t := run_ops (ops_of G k pre) in
@@ -457,6 +456,19 @@ Theorem c06_presentation_private : forall G pre r k from post,
        = items_of r post (snd (prun false G (fst (pstep false G s (POpen r k from))) post)) ++ rest).
 Proof. exact presentation_private. Qed.
 Print Assumptions c06_presentation_private.
+
+(* ... and if the reader runs to the end of its iteration within [post] (its PNext finds nothing left, before any PClose),
+   it has been handed ALL the remaining elements of L. *)
+Theorem c06_presentation_complete : forall G pre r k from post x,
+  let s := fst (prun false G p_init pre) in
+  let L := iter_ids (run_ops (ops_of G k pre)) in
+  let obs := snd (prun false G (fst (pstep false G s (POpen r k from))) post) in
+  pget (p_readers s) r = None ->
+  nth_error L (find_pos from L) = Some x ->
+  ended_in r post obs = true ->
+  skipn (S (find_pos from L)) L = items_of r post obs.
+Proof. exact presentation_complete. Qed.
+Print Assumptions c06_presentation_complete.
 
 (* Non-vacuity: tree 1 = 1 -> 2 -> {3,4} -> 5, tree 2 = a chain 21..26.  Reader 7 is opened on tree 1, then tree 2 is
    read as a whole and grown, then the reader is stepped to its end: it is handed 1 2 3 4 5; the property predicate
@@ -479,10 +491,13 @@ Example c06_pool_nonvacuous :
   items_of 7 pool_post
     (snd (prun false pool_G (fst (pstep false pool_G (fst (prun false pool_G p_init pool_pre)) (POpen 7 1 1))) pool_post))
   = [2; 3; 4; 5] /\
+  ended_in 7 pool_post
+    (snd (prun false pool_G (fst (pstep false pool_G (fst (prun false pool_G p_init pool_pre)) (POpen 7 1 1))) pool_post))
+  = true /\
   spec_C06_pool pool_G (combine pool_trace (snd (prun false pool_G p_init pool_trace))) = true.
 Proof.
   split; [vm_compute; reflexivity|]. split; [vm_lhs; discriminate|].
-  split; [vm_compute; reflexivity|]. split; vm_compute; reflexivity.
+  split; [vm_compute; reflexivity|]. split; [vm_compute; reflexivity|]. split; vm_compute; reflexivity.
 Qed.
 
 Example c06_pool_early_release_refuted :
